@@ -59,6 +59,12 @@ def _calc_spanning_tree ():
   switches = set()
   # Add all links and switches
   for l in core.openflow_discovery.adjacency:
+    if l.dpid1 == l.dpid2:
+      # A cable between two ports of one switch can't be part of any tree
+      # (its ports are not edge ports either, so they get their flood bit
+      # turned off like those of any other non-tree link)
+      switches.add(l.dpid1)
+      continue
     adj[l.dpid1][l.dpid2].append(l)
     switches.add(l.dpid1)
     switches.add(l.dpid2)
